@@ -1,0 +1,57 @@
+//go:build verif
+
+// Package vexport re-exports a few internal packages for external
+// verification tooling. It only exists with the "verif" build tag.
+package vexport
+
+import (
+	"io"
+	"time"
+
+	"github.com/rqlite/rqlite/v10/internal/rarchive/zstd"
+	"github.com/rqlite/rqlite/v10/internal/rsum"
+	"github.com/rqlite/rqlite/v10/internal/rsync"
+	"github.com/rqlite/rqlite/v10/internal/vhook"
+)
+
+// Coordination primitives.
+type (
+	CheckAndSet       = rsync.CheckAndSet
+	MultiRSW          = rsync.MultiRSW
+	ReadyTargetUint64 = rsync.ReadyTarget[uint64]
+)
+
+// NewCheckAndSet returns a new gate.
+func NewCheckAndSet() *CheckAndSet { return rsync.NewCheckAndSet() }
+
+// NewMultiRSW returns a new multi-reader single-writer lock.
+func NewMultiRSW() *MultiRSW { return rsync.NewMultiRSW() }
+
+// NewReadyTargetUint64 returns a new index waiter.
+func NewReadyTargetUint64() *ReadyTargetUint64 { return rsync.NewReadyTarget[uint64]() }
+
+// ErrCASConflict is returned by a gate that is already held.
+var (
+	ErrCASConflict        = rsync.ErrCASConflict
+	ErrCASConflictTimeout = rsync.ErrCASConflictTimeout
+)
+
+// NewZstdCompressor wraps the snapshot transport compressor.
+func NewZstdCompressor(r io.Reader, uncompressedSize int64, bufSz int) (io.ReadCloser, error) {
+	return zstd.NewCompressor(r, uncompressedSize, bufSz)
+}
+
+// NewZstdDecompressor wraps the snapshot transport decompressor.
+func NewZstdDecompressor(r io.Reader) io.Reader { return zstd.NewDecompressor(r) }
+
+// CRC32 returns the CRC32 of the file as rqlite computes it.
+func CRC32(path string) (uint32, error) { return rsum.CRC32(path) }
+
+// Hook control.
+const HookCrashExitCode = vhook.CrashExitCode
+
+func HookOn(name string, fn func())               { vhook.On(name, fn) }
+func HookOnErr(name string, fn func() error)      { vhook.OnErr(name, fn) }
+func HookSetDelay(name string, d time.Duration)   { vhook.SetDelay(name, d) }
+func HookSetSink(fn func(name string, arg int64)) { vhook.SetSink(fn) }
+func HookHits(name string) int64                  { return vhook.Hits(name) }
